@@ -31,7 +31,8 @@ func (db *DB) repairCompactions() error {
 			return err
 		}
 
-		if info.IsDir() && strings.HasPrefix(info.Name(), SSTableCompactionPathPrefix) {
+		// the walk starts at the database directory itself, which is not one of its own entries whatever its name is
+		if p != db.basePath && info.IsDir() && strings.HasPrefix(info.Name(), SSTableCompactionPathPrefix) {
 			err := func() (err error) {
 				metaPath := filepath.Join(p, CompactionFinishedSuccessfulFileName)
 				_, err = os.Stat(metaPath)
@@ -125,7 +126,9 @@ func (db *DB) reconstructSSTables() error {
 			return err
 		}
 
-		if info.IsDir() && strings.HasPrefix(info.Name(), SSTablePrefix) {
+		// the walk starts at the database directory itself: a database that lives in a directory called "sstable..."
+		// must not be taken for one of its own tables (it would be dropped as an incomplete one)
+		if path != db.basePath && info.IsDir() && strings.HasPrefix(info.Name(), SSTablePrefix) {
 			tablePaths = append(tablePaths, path)
 		}
 
